@@ -17,6 +17,7 @@ import (
 	"strings"
 
 	"github.com/virus-evolution/gofasta/pkg/fastaio"
+	"github.com/virus-evolution/gofasta/pkg/vhook"
 )
 
 /*
@@ -385,6 +386,7 @@ func findUpDownCatchmentPushDistance(q updownLine, ignore []string, sizeArray [4
 
 	// TO DO - balance the neighbours here if sizeArray is given? Would need a balance function specific to pushing
 
+	vhook.Ready("updown.findUpDownCatchment", neighbours.qidx)
 	cOut <- neighbours
 }
 
@@ -547,6 +549,7 @@ func findUpDownCatchment(q updownLine, ignore []string, sizeArray [4]int, nofill
 	neighbours.down.catchment = neighbours.down.catchment[0:size[2]]
 	neighbours.side.catchment = neighbours.side.catchment[0:size[3]]
 
+	vhook.Ready("updown.findUpDownCatchment", neighbours.qidx)
 	cOut <- neighbours
 }
 
@@ -928,6 +931,7 @@ func TopRanking(query, target, reference io.Reader, out io.Writer, table bool,
 
 	for i := 0; i < nQ; i++ {
 		result := <-cResults
+		vhook.Recv("updown.TopRanking", result.qidx)
 		QResultsArray[result.qidx] = result
 	}
 
